@@ -27,6 +27,7 @@ struct wslot {
 	struct item pfx;
 	volatile int devs, failed, pruned, cut;
 	char fsig[200], fmsg[700];
+	volatile int nsoft; char ssig[3][200], smsg[3][400];
 	uint64_t outcome;
 	volatile pid_t pid;
 	volatile long bot, sp;
@@ -41,7 +42,7 @@ struct mcsh {
 	struct item gq[GQCAP];
 	volatile int nv; struct mviol v[NV];
 	volatile size_t noteslen; char notes[NOTESZ];
-	char rp_sig[200]; char rp_msg[700]; volatile int rp_done;
+	char rp_sig[1000]; char rp_msg[700]; volatile int rp_done;
 	struct item sample[4]; volatile int nsample;
 	volatile uint64_t states, table_full;
 	struct wslot w[NW];
@@ -141,6 +142,19 @@ mc_fail(const char * sig, const char * fmt, ...)
 }
 
 void
+mc_soft_fail(const char * sig, const char * fmt, ...)
+{
+	va_list ap; int i;
+	for (i = 0; i < W->nsoft; i++) if (!strcmp(W->ssig[i], sig)) return;
+	if (W->nsoft >= 3) return;
+	i = W->nsoft;
+	snprintf(W->ssig[i], sizeof(W->ssig[i]), "%s", sig);
+	va_start(ap, fmt); vsnprintf(W->smsg[i], sizeof(W->smsg[i]), fmt, ap); va_end(ap);
+	W->nsoft = i + 1;
+	if (noting) mc_note("!! (execution continues) %s: %s", W->ssig[i], W->smsg[i]);
+}
+
+void
 mc_state(const void * canon, size_t len)
 {
 	uint64_t h1, h2, w1, nv; size_t i; int budget;
@@ -197,7 +211,7 @@ exec_reset(const struct item * it)
 {
 	W->pfx = *it;
 	W->tr_n = 0; W->devs = 0; W->failed = 0; W->pruned = 0; W->cut = 0; W->outcome = 0;
-	W->fsig[0] = 0; W->fmsg[0] = 0;
+	W->fsig[0] = 0; W->fmsg[0] = 0; W->nsoft = 0;
 }
 static void
 run_inproc(void)
@@ -282,6 +296,7 @@ worker(int slot, int resume)
 		if (W->tr_n < it.len && !W->pruned && !W->cut && !W->failed) vf_engine_error("execution ended after %d choice points but its prefix has %d", W->tr_n, it.len);
 		if (W->tr_n >= it.len) l_newpoints += (uint64_t)(W->tr_n - it.len) + (it.len ? 1 : 0);
 		if (W->pruned) l_pruned++; else if (W->cut) l_cut++; else l_complete++;
+		{ int si; for (si = 0; si < W->nsoft; si++) record_violation(W->ssig[si], W->smsg[si], 0); }
 		if (W->failed == 1) { record_violation(W->fsig, W->fmsg, 0); l_failed++; }
 		else if (W->failed == 2) l_failed++;
 		if (!W->pruned && !W->failed) {
@@ -314,6 +329,14 @@ choices_json(char * out, size_t n, const struct item * it)
 	snprintf(out + o, n - o, "]");
 }
 
+static void
+publish_sigs(void)
+{
+	int i; size_t o = 0;
+	SH->rp_sig[0] = 0;
+	if (W->failed) o += (size_t)snprintf(SH->rp_sig + o, sizeof(SH->rp_sig) - o, "%s\n", W->fsig);
+	for (i = 0; i < W->nsoft && o < sizeof(SH->rp_sig) - 1; i++) o += (size_t)snprintf(SH->rp_sig + o, sizeof(SH->rp_sig) - o, "%s\n", W->ssig[i]);
+}
 /* run one vector with notes, in the calling (child) process */
 struct rp { const struct item * it; };
 static void
@@ -330,13 +353,12 @@ replay_child(void * arg)
 		in_exec = 0;
 		/* fall through to exit(): atexit handlers may still call mc_fail; result published by atexit hook below */
 	} else run_inproc();
-	snprintf(SH->rp_sig, sizeof(SH->rp_sig), "%s", W->failed ? W->fsig : "");
-	snprintf(SH->rp_msg, sizeof(SH->rp_msg), "%s", W->failed ? W->fmsg : "");
+	publish_sigs();
 	SH->rp_done = 1;
 	if (CFG->fork_mode) { fflush(stdout); exit(0); }
 }
 /* in fork mode end-of-process checks run from atexit: publish again afterwards */
-void mc_publish_late(void){ if (SH && W && replay_mode) { snprintf(SH->rp_sig, sizeof(SH->rp_sig), "%s", W->failed ? W->fsig : ""); snprintf(SH->rp_msg, sizeof(SH->rp_msg), "%s", W->failed ? W->fmsg : ""); } }
+void mc_publish_late(void){ if (SH && W && replay_mode) publish_sigs(); }
 
 static void
 notes_json(char * out, size_t n)
@@ -359,9 +381,12 @@ verify_and_publish(void)
 		r.it = &v->vec; cur_bound = v->bound;
 		st = vf_run_isolated(replay_child, &r, sig, sizeof(sig), text, sizeof(text));
 		(void)st;
-		if (sig[0] == 0) snprintf(sig, sizeof(sig), "%s", SH->rp_sig);
-		if (strcmp(sig, v->sig) != 0)
-			vf_engine_error("violation '%s' did not reproduce in a fresh process (got '%s'): harness nondeterminism or state leaking between executions", v->sig, sig);
+		{
+			char all[1300], want[220]; 
+			snprintf(all, sizeof(all), "\n%s\n%s", sig, SH->rp_sig); snprintf(want, sizeof(want), "\n%s\n", v->sig);
+			if (strstr(all, want) == NULL)
+				vf_engine_error("violation '%s' did not reproduce in a fresh process (got '%s'): harness nondeterminism or state leaking between executions", v->sig, all);
+		}
 		choices_json(cj, sizeof(cj), &v->vec); notes_json(nj, sizeof(nj));
 		snprintf(rj, sizeof(rj), "{\"mc\":\"%s\",\"args\":%s,\"bound\":%d,\"choices\":%s,\"trace\":%s}", CFG->name, CFG->args_json ? CFG->args_json : "[]", v->bound, cj, nj);
 		vf_violation(v->sig, rj, "%s", v->msg);
